@@ -180,6 +180,9 @@ theorem cmdLoop_flag (sc : Scripts) (k : Nat) (w : World) (h : FlagSound w) : Fl
 
 theorem userIO_flag (w : World) (u : Nat) (h : FlagSound w) : FlagSound (userIO w u) := by
   unfold userIO
+  split
+  · exact flagSound_upd w u _ h (fun _ => rfl) _ rfl
+  unfold userIO0
   dsimp only
   split
   · refine flagSound_upd w u _ h ?_ _ rfl
